@@ -334,3 +334,62 @@ def container_ops(func_node, is_container):
                     out.append(("del" if isinstance(n, ast.Delete) else
                                 ("aug=" if isinstance(n, ast.AugAssign) else "="), n))
     return out
+
+
+def bind_call(call, callee_node, skip_self=True):
+    """Map callee parameter name -> argument expression for a call, or None when the call uses * / ** in a way
+    that cannot be bound statically."""
+    a = callee_node.args
+    params = [x.arg for x in a.posonlyargs + a.args]
+    if skip_self and params and params[0] in ("self", "cls"):
+        params = params[1:]
+    out = {}
+    for i, arg in enumerate(call.args):
+        if isinstance(arg, ast.Starred):
+            return None
+        if i < len(params):
+            out[params[i]] = arg
+        elif a.vararg is None:
+            out["<extra %d>" % i] = arg
+    for k in call.keywords:
+        if k.arg is None:
+            out["**"] = k.value
+        else:
+            out[k.arg] = k.value
+    return out
+
+
+def forwarded(chk, rule, wrapper, call, callee, same=(), mapping=None, what=None, require_all=False):
+    """FWD rule: in `wrapper` the call `call` to `callee` passes, for every parameter name in `same`, the wrapper's
+    own value of that name (a Name `p`, or an attribute/subscript ending in `.p` / `['p']` of a record) to the
+    callee's parameter of the same name.  `mapping` = {callee_param: accepted expression texts} for renamed ones."""
+    b = bind_call(call, callee.node)
+    label = what or "%s -> %s" % (wrapper.qualname, callee.qualname)
+    if b is None:
+        chk.observe(rule, "call with * arguments not bound: %s" % short(call, 60), wrapper.where(call))
+        return
+    for p in same:
+        e = b.get(p)
+        if e is None:
+            # falls back to the callee's default: the wrapper's value is dropped
+            has = require_all or p in wrapper.params()
+            chk.ob(rule, "%s passes `%s` on" % (label, p), not has, wrapper.where(call),
+                   detail="the wrapper's `%s` is not handed to %s (its default is used instead)" % (p, callee.qualname),
+                   construct=wrapper.ident, text="%s: %s not forwarded" % (label, p))
+            continue
+        t = src(e)
+        ok = t == p or t.endswith("." + p) or t.endswith("['%s']" % p) or t.endswith('["%s"]' % p)
+        if mapping and p in mapping:
+            ok = ok or t in mapping[p]
+        chk.ob(rule, "%s passes `%s` as `%s`" % (label, p, p), ok, wrapper.where(call),
+               detail="parameter `%s` of %s receives `%s`" % (p, callee.qualname, t), construct=wrapper.ident,
+               text="%s: %s receives %s" % (label, p, t))
+    if mapping:
+        for p, accepted in mapping.items():
+            if p in same:
+                continue
+            e = b.get(p)
+            t = src(e) if e is not None else None
+            chk.ob(rule, "%s passes `%s`" % (label, p), t in accepted, wrapper.where(call),
+                   detail="parameter `%s` of %s receives `%s`" % (p, callee.qualname, t), construct=wrapper.ident,
+                   text="%s: %s receives %s" % (label, p, t))
